@@ -16,7 +16,7 @@ CONSTANTS
   MaxBurnNonce = 3
   Staked = {"a1", "a2"}
   Nonces = {0, 1}
-  SigSeqs <- Seqs3
+  SigSeqs <- Multi3
   BurnVals <- NoVals
   Acceptance = "written"
   CountsUnverified = TRUE
